@@ -319,9 +319,19 @@ PROP_MENU = [
     # payloads that are not text in any encoding: a PNG header, a byte-order mark, a lone continuation byte, zero bytes
     ("ATTACH;FMTTYPE=image/png;ENCODING=BASE64;VALUE=BINARY", "iVBORw0KGgo="), ("ATTACH;ENCODING=BASE64;VALUE=BINARY", "77u/QQ=="),
     ("ATTACH;ENCODING=BASE64;VALUE=BINARY", "gA=="), ("ATTACH;ENCODING=BASE64;VALUE=BINARY", "AAAA"),
+    # the same wall-clock digits as UTC, in zones that are at +00:00 then, and floating (an offset does not identify a zone)
+    ("DTSTAMP", "20240110T120000Z"), ("DTSTART;TZID=Europe/London", "20240110T120000"), ("DUE", "20240110T120000"),
+    ("DTEND;TZID=Africa/Abidjan", "20240110T120000"), ("CREATED", "20240220T070000Z"),
+    ("RECURRENCE-ID;TZID=Europe/Lisbon", "20240220T070000"), ("EXDATE;TZID=Europe/London", "20240220T070000"),
+    ("LAST-MODIFIED", "20240110T120000Z"),
     ("CATEGORIES", "work,errand,family,work,home"),
     ("PRIORITY", "0"), ("SEQUENCE", "2147483647"), ("GEO", "0;0"), ("TZOFFSETFROM", "-0000"), ("TZOFFSETTO", "+235959"),
 ]
+# lines that are already in the form the library writes: whatever else the text or the process holds, they come out as they went in
+SELF_CANONICAL = ["DTSTAMP:20240110T120000Z", "DTSTART;TZID=Europe/London:20240110T120000", "DUE:20240110T120000",
+                  "DTEND;TZID=Africa/Abidjan:20240110T120000", "CREATED:20240220T070000Z",
+                  "RECURRENCE-ID;TZID=Europe/Lisbon:20240220T070000", "EXDATE;TZID=Europe/London:20240220T070000",
+                  "LAST-MODIFIED:20240110T120000Z"]
 COMP_NAMES = ["VEVENT", "VTODO", "VJOURNAL", "VFREEBUSY", "VALARM", "X-CUSTOM", "vevent", "VVENUE"]
 
 
